@@ -526,7 +526,12 @@ func (f Float) Type() Type {
 }
 
 func (f Float) Inspect() string {
-	return strconv.FormatFloat(f.Value, 'f', -1, 64)
+	s := strconv.FormatFloat(f.Value, 'f', -1, 64)
+	if _, err := strconv.ParseInt(s, 10, 64); err != nil {
+		return s // has a fractional part, is too large for an integer, or is +Inf, -Inf, NaN.
+	}
+	// An integral value prints as digits only: add .0 so it reads back as a float and not as an integer.
+	return s + ".0"
 }
 
 type Boolean struct {
